@@ -59,117 +59,133 @@ def run(chk):
     ]
     MODS = "coxeter.shapes.convex_spheropolyhedron"
     MODC = "coxeter.shapes.convex_polyhedron"
+    MODG = "coxeter.shapes.convex_spheropolygon"
     L = edge_length()
     edge_sum = sum_over(E, L * (sp.pi - phi(ei, ej)))       # sum_e L_e (pi - phi_e)
     Mcore = edge_sum / (8 * sp.pi)
 
-    # ---------------------------------------------------------------- ConvexPolyhedron curvature descriptors
-    fk = chk.function(MODC, "ConvexPolyhedron.mean_curvature[get]")
-    for p in chk.explore(fk, lambda: core_with_contracts(shapes).mean_curvature, assumptions=E.facts()):
-        chk.prove_eq("mean_curvature:definition", fk, p.pc, ex(p.value), Mcore)
-    for member, spec in (("tau", 4 * sp.pi * M0**2 / S0), ("asphericity", M0 * S0 / (3 * V0))):
-        fk = chk.function(MODC, f"ConvexPolyhedron.{member}[get]")
+    def sec_0():
+        fk = chk.function(MODC, "ConvexPolyhedron.mean_curvature[get]")
+        for p in chk.explore(fk, lambda: core_with_contracts(shapes).mean_curvature, assumptions=E.facts()):
+            chk.prove_eq("mean_curvature:definition", fk, p.pc, ex(p.value), Mcore)
+        for member, spec in (("tau", 4 * sp.pi * M0**2 / S0), ("asphericity", M0 * S0 / (3 * V0))):
+            fk = chk.function(MODC, f"ConvexPolyhedron.{member}[get]")
 
-        def run_m(member=member):
-            o = core_with_contracts(shapes)
-            o.__class__ = type("c", (o.__class__,), {"mean_curvature": property(lambda self: Sym(M0))})
-            return getattr(o, member)
-        for p in chk.explore(fk, run_m):
-            chk.prove_eq(f"{member}:definition", fk, p.pc, ex(p.value), spec)
-    fk = chk.function("coxeter.shapes.base_classes", "Shape3D.iq[get]")
-    for p in chk.explore(fk, lambda: core_with_contracts(shapes).iq):
-        chk.prove_eq("iq3d:definition", fk, p.pc, ex(p.value), 36 * sp.pi * V0**2 / S0**3)
-    fk = chk.function("coxeter.shapes.polyhedron", "Polyhedron.get_dihedral")
+            def run_m(member=member):
+                o = core_with_contracts(shapes)
+                o.__class__ = type("c", (o.__class__,), {"mean_curvature": property(lambda self: Sym(M0))})
+                return getattr(o, member)
+            for p in chk.explore(fk, run_m):
+                chk.prove_eq(f"{member}:definition", fk, p.pc, ex(p.value), spec)
+        fk = chk.function("coxeter.shapes.base_classes", "Shape3D.iq[get]")
+        for p in chk.explore(fk, lambda: core_with_contracts(shapes).iq):
+            chk.prove_eq("iq3d:definition", fk, p.pc, ex(p.value), 36 * sp.pi * V0**2 / S0**3)
+        fk = chk.function("coxeter.shapes.polyhedron", "Polyhedron.get_dihedral")
 
-    def run_d():
-        o = object.__new__(shapes.Polyhedron)
-        n = [[sp.Symbol(f"n{a}{j}", real=True) for j in range(3)] for a in range(2)]
-        o._equations = np.array([[Sym(x) for x in n[0]] + [Sym(sp.Symbol("d0"))], [Sym(x) for x in n[1]] + [Sym(sp.Symbol("d1"))]], dtype=object)
-        o._neighbors = [np.array([1]), np.array([0])]
-        return o.get_dihedral(0, 1), n
-    for p in chk.explore(fk, run_d):
-        val, n = p.value
-        chk.prove_eq("get_dihedral:post", fk, p.pc, ex(val), sp.acos(-sum(n[0][j] * n[1][j] for j in range(3))))
+        def run_d():
+            o = object.__new__(shapes.Polyhedron)
+            n = [[sp.Symbol(f"n{a}{j}", real=True) for j in range(3)] for a in range(2)]
+            o._equations = np.array([[Sym(x) for x in n[0]] + [Sym(sp.Symbol("d0"))], [Sym(x) for x in n[1]] + [Sym(sp.Symbol("d1"))]], dtype=object)
+            o._neighbors = [np.array([1]), np.array([0])]
+            return o.get_dihedral(0, 1), n
+        for p in chk.explore(fk, run_d):
+            val, n = p.value
+            chk.prove_eq("get_dihedral:post", fk, p.pc, ex(val), sp.acos(-sum(n[0][j] * n[1][j] for j in range(3))))
 
-    def run_d2():
-        o = object.__new__(shapes.Polyhedron)
-        o._equations = np.zeros((3, 4), dtype=object)
-        o._neighbors = [np.array([1]), np.array([0]), np.array([], dtype=int)]
-        try:
-            o.get_dihedral(0, 2)
-        except ValueError:
-            return "ValueError"
-        return "returned"
-    for p in chk.explore(fk, run_d2):
-        chk.record("get_dihedral:non_neighbours_raise_ValueError", fk, "proved" if p.value == "ValueError" else "refuted",
-                   "concrete", model={})
+        def run_d2():
+            o = object.__new__(shapes.Polyhedron)
+            o._equations = np.zeros((3, 4), dtype=object)
+            o._neighbors = [np.array([1]), np.array([0]), np.array([], dtype=int)]
+            try:
+                o.get_dihedral(0, 2)
+            except ValueError:
+                return "ValueError"
+            return "returned"
+        for p in chk.explore(fk, run_d2):
+            chk.record("get_dihedral:non_neighbours_raise_ValueError", fk, "proved" if p.value == "ValueError" else "refuted",
+                       "concrete", model={})
+    chk.section("convexpolyhedron_curvature_descriptors", "coxeter.shapes.convex_spheropolyhedron::ConvexSpheropolyhedron", sec_0)
 
-    # ---------------------------------------------------------------- ConvexSpheropolyhedron
-    def sphero():
-        o = object.__new__(shapes.ConvexSpheropolyhedron)
-        o._polyhedron = core_with_contracts(shapes)
-        o._radius = Sym(rr)
-        return o
-    fk = chk.function(MODS, "ConvexSpheropolyhedron.volume[get]")
-    for p in chk.explore(fk, lambda: sphero().volume, assumptions=E.facts()):
-        spec = V0 + S0 * rr + 4 * sp.pi * Mcore * rr**2 + sp.Rational(4, 3) * sp.pi * rr**3
-        chk.prove_eq("spheropolyhedron.volume:steiner", fk, p.pc, ex(p.value), spec)
-        chk.prove_eq("spheropolyhedron.volume:r_zero", fk, p.pc, ex(p.value).subs(rr, 0), V0)
-    fk = chk.function(MODS, "ConvexSpheropolyhedron.surface_area[get]")
-    for p in chk.explore(fk, lambda: sphero().surface_area, assumptions=E.facts()):
-        spec = S0 + 8 * sp.pi * Mcore * rr + 4 * sp.pi * rr**2
-        chk.prove_eq("spheropolyhedron.surface_area:steiner", fk, p.pc, ex(p.value), spec)
-        chk.prove_eq("spheropolyhedron.surface_area:r_zero", fk, p.pc, ex(p.value).subs(rr, 0), S0)
-    fk = chk.function(MODS, "ConvexSpheropolyhedron.mean_curvature[get]")
+    def sec_1():
+        smod = ld.load(MODS)
 
-    def run_mc():
-        o = sphero()
-        o._polyhedron.__class__ = type("c", (o._polyhedron.__class__,), {"mean_curvature": property(lambda self: Sym(M0))})
-        return o.mean_curvature
-    for p in chk.explore(fk, run_mc):
-        chk.prove_eq("spheropolyhedron.mean_curvature:steiner", fk, p.pc, ex(p.value), M0 + rr)
+        def sphero():
+            # built by the real constructor, with the core replaced by its contract object
+            old = smod.ConvexPolyhedron
+            smod.ConvexPolyhedron = lambda v: core_with_contracts(shapes)
+            try:
+                return smod.ConvexSpheropolyhedron("VERTICES", Sym(rr))
+            finally:
+                smod.ConvexPolyhedron = old
+        fk = chk.function(MODS, "ConvexSpheropolyhedron.volume[get]")
+        for p in chk.explore(fk, lambda: sphero().volume, assumptions=E.facts()):
+            spec = V0 + S0 * rr + 4 * sp.pi * Mcore * rr**2 + sp.Rational(4, 3) * sp.pi * rr**3
+            chk.prove_eq("spheropolyhedron.volume:steiner", fk, p.pc, ex(p.value), spec)
+            chk.prove_eq("spheropolyhedron.volume:r_zero", fk, p.pc, ex(p.value).subs(rr, 0), V0)
+        fk = chk.function(MODS, "ConvexSpheropolyhedron.surface_area[get]")
+        for p in chk.explore(fk, lambda: sphero().surface_area, assumptions=E.facts()):
+            spec = S0 + 8 * sp.pi * Mcore * rr + 4 * sp.pi * rr**2
+            chk.prove_eq("spheropolyhedron.surface_area:steiner", fk, p.pc, ex(p.value), spec)
+            chk.prove_eq("spheropolyhedron.surface_area:r_zero", fk, p.pc, ex(p.value).subs(rr, 0), S0)
+        fk = chk.function(MODS, "ConvexSpheropolyhedron.mean_curvature[get]")
 
-    # ---------------------------------------------------------------- ConvexSpheropolygon
-    MODG = "coxeter.shapes.convex_spheropolygon"
+        def run_mc():
+            o = sphero()
+            o._polyhedron.__class__ = type("c", (o._polyhedron.__class__,), {"mean_curvature": property(lambda self: Sym(M0))})
+            return o.mean_curvature
+        for p in chk.explore(fk, run_mc):
+            chk.prove_eq("spheropolyhedron.mean_curvature:steiner", fk, p.pc, ex(p.value), M0 + rr)
+    chk.section("convexspheropolyhedron", "coxeter.shapes.convex_spheropolyhedron::ConvexSpheropolyhedron", sec_1)
 
-    def spg():
-        o = object.__new__(shapes.ConvexSpheropolygon)
-        poly_cls = type("ConvexPolygon_c11", (shapes.ConvexPolygon,), {
-            "signed_area": property(lambda self: Sym(A0)), "perimeter": property(lambda self: Sym(P0))})
-        poly = object.__new__(poly_cls)
-        poly._vertices = make("Vm", (NV, 3))
-        poly._normal = np.array([0, 0, 1], dtype=object)
-        o._polygon = poly
-        o._radius = Sym(rr)
-        return o
-    k = NV.k
-    nxt = sp.Mod(k + 1, NV.n)
-    d = [Vm(k, sp.Integer(j)) - Vm(nxt, sp.Integer(j)) for j in range(3)]
-    per_sum = sum_over(NV, sp.sqrt(sp.factor_terms(sp.expand(sum(x * x for x in d)))))
-    fk = chk.function(MODG, "ConvexSpheropolygon.signed_area[get]")
-    for p in chk.explore(fk, lambda: (spg().signed_area, spg().area), assumptions=NV.facts()):
-        sa, ar = (ex(v) for v in p.value)
-        t = path_tag(p)
-        steiner = per_sum * rr + sp.pi * rr**2
-        chk.prove(f"spheropolygon.signed_area:steiner[{t}]", fk, p.pc + [sp.Ge(per_sum, 0)],
-                  sp.And(sp.Eq(sp.Abs(sa), sp.Abs(A0) + steiner), sp.Implies(sp.Ne(A0, 0), sp.Eq(sp.sign(sa), sp.sign(A0)))))
-        chk.prove(f"spheropolygon.area:steiner[{t}]", fk, p.pc + [sp.Ge(per_sum, 0)], sp.Eq(ar, sp.Abs(A0) + steiner))
-        chk.prove_eq(f"spheropolygon.signed_area:r_zero[{t}]", fk, p.pc, sa.subs(rr, 0), A0)
-    chk.record("spheropolygon.edge_sum_is_core_perimeter", fk,
-               "proved" if sigma.is_zero(per_sum - _polygon_perimeter_spec()) else "refuted", "sigma-normal-form", model={},
-               goal="sum_k |v_k - v_k+1| == sum_k |v_k+1 - v_k| (the core's perimeter, C04)")
-    fk = chk.function(MODG, "ConvexSpheropolygon.perimeter[get]")
-    for p in chk.explore(fk, lambda: spg().perimeter):
-        chk.prove_eq("spheropolygon.perimeter:steiner", fk, p.pc, ex(p.value), P0 + 2 * sp.pi * rr)
-    fk = chk.function("coxeter.shapes.base_classes", "Shape2D.iq[get]")
+    def sec_2():
 
-    def run_iq():
-        o = spg()
-        o.__class__ = type("c", (o.__class__,), {"area": property(lambda self: Sym(A0)), "perimeter": property(lambda self: Sym(P0))})
-        return o.iq
-    for p in chk.explore(fk, run_iq):
-        chk.prove_eq("iq2d:definition", fk, p.pc, ex(p.value), 4 * sp.pi * A0 / P0**2)
-    chk.canary_eq("canary:steiner_with_wrong_coefficient", fk, V0 + S0 * rr, V0 + 2 * S0 * rr)
+        gmod = ld.load(MODG)
+
+        def spg():
+            poly_cls = type("ConvexPolygon_c11", (shapes.ConvexPolygon,), {
+                "signed_area": property(lambda self: Sym(A0)), "perimeter": property(lambda self: Sym(P0))})
+
+            def make_poly(vertices, normal=None, *a, **k):
+                poly = object.__new__(poly_cls)
+                poly._vertices = make("Vm", (NV, 3))
+                poly._normal = np.array([0, 0, 1], dtype=object)
+                return poly
+            old, old2 = gmod.ConvexPolygon, gmod._is_convex
+            gmod.ConvexPolygon, gmod._is_convex = make_poly, (lambda v, n: True)
+            try:
+                return gmod.ConvexSpheropolygon("VERTICES", Sym(rr))
+            finally:
+                gmod.ConvexPolygon, gmod._is_convex = old, old2
+        k = NV.k
+        nxt = sp.Mod(k + 1, NV.n)
+        d = [Vm(k, sp.Integer(j)) - Vm(nxt, sp.Integer(j)) for j in range(3)]
+        per_sum = sum_over(NV, sp.sqrt(sp.factor_terms(sp.expand(sum(x * x for x in d)))))
+        fk = chk.function(MODG, "ConvexSpheropolygon.signed_area[get]")
+        for p in chk.explore(fk, lambda: (spg().signed_area, spg().area), assumptions=NV.facts()):
+            sa, ar = (ex(v) for v in p.value)
+            t = path_tag(p)
+            steiner = per_sum * rr + sp.pi * rr**2
+            chk.prove(f"spheropolygon.signed_area:steiner[{t}]", fk, p.pc + [sp.Ge(per_sum, 0)],
+                      sp.And(sp.Eq(sp.Abs(sa), sp.Abs(A0) + steiner), sp.Implies(sp.Ne(A0, 0), sp.Eq(sp.sign(sa), sp.sign(A0)))))
+            chk.prove(f"spheropolygon.area:steiner[{t}]", fk, p.pc + [sp.Ge(per_sum, 0)], sp.Eq(ar, sp.Abs(A0) + steiner))
+            chk.prove_eq(f"spheropolygon.signed_area:r_zero[{t}]", fk, p.pc, sa.subs(rr, 0), A0)
+        chk.record("spheropolygon.edge_sum_is_core_perimeter", fk,
+                   "proved" if sigma.is_zero(per_sum - _polygon_perimeter_spec()) else "refuted", "sigma-normal-form", model={},
+                   goal="sum_k |v_k - v_k+1| == sum_k |v_k+1 - v_k| (the core's perimeter, C04)")
+        fk = chk.function(MODG, "ConvexSpheropolygon.perimeter[get]")
+        for p in chk.explore(fk, lambda: spg().perimeter):
+            chk.prove_eq("spheropolygon.perimeter:steiner", fk, p.pc, ex(p.value), P0 + 2 * sp.pi * rr)
+        fk = chk.function("coxeter.shapes.base_classes", "Shape2D.iq[get]")
+
+        def run_iq():
+            o = spg()
+            o.__class__ = type("c", (o.__class__,), {"area": property(lambda self: Sym(A0)), "perimeter": property(lambda self: Sym(P0))})
+            return o.iq
+        for p in chk.explore(fk, run_iq):
+            chk.prove_eq("iq2d:definition", fk, p.pc, ex(p.value), 4 * sp.pi * A0 / P0**2)
+    chk.section("convexspheropolygon", "coxeter.shapes.convex_spheropolyhedron::ConvexSpheropolyhedron", sec_2)
+
+    chk.canary_eq("canary:steiner_with_wrong_coefficient", "coxeter.shapes.base_classes::Shape2D.iq[get]", V0 + S0 * rr, V0 + 2 * S0 * rr)
     from .bounded_c11 import run_bounded
     run_bounded(chk)
 
